@@ -5,8 +5,10 @@
 //
 // Monitor: the REAL mirrored.NewMirroredBlobAccess over two replicas, with the
 // REAL replicators (local, deduplicating, concurrency-limiting, queued, no-op;
-// optionally inside the metrics decorator, as the configuration layer builds
-// them). A replica is either a harness model store or a real local store
+// assembled by hand, optionally inside the metrics decorator, or built by
+// configuration.NewBlobReplicatorFromConfiguration from configuration messages
+// like production does). A replica is either a harness model store (keyed with
+// or without the instance name) or a real local store (flat or hierarchical)
 // assembled from bb-storage's exported constructors (localstore.go), always
 // behind a recording / failure-injecting decorator (replica.go). After every
 // operation the result, the calls each replica saw and the contents of both
@@ -16,11 +18,16 @@
 //
 //	enum  - exhaustive small scope: every placement x every operation sequence
 //	        up to a bound x every replicator x a failure (every code, early and
-//	        late) at EVERY call either replica receives in that sequence.
+//	        late; spurious NOT_FOUND; acknowledged upload lost) at EVERY call
+//	        either replica receives in that sequence.
 //	seq   - random sequential scenarios over model replicas: several objects,
 //	        mixed replicators per direction, up to two failures, inconsistent
 //	        replicas (spurious NOT_FOUND), all consumption methods.
-//	local - the same with real local stores as replicas; objects parked in
+//	inst  - the same contents under several instance names, each with its own
+//	        placement, over replicas that distinguish instance names (model
+//	        stores keyed with the instance name, hierarchical local stores),
+//	        replicators mostly built by the configuration layer.
+//	local - the same as seq with real local stores as replicas; objects parked in
 //	        "old" blocks so that the replica's Get returns a buffer with the
 //	        refresh running as a background task.
 //	conc  - concurrent clients under the race detector; schedule-independent
@@ -65,7 +72,7 @@ func main() {
 		Level:    "fault_enumeration",
 		Rule: "enum: base = (replicator strategy, placement of one object in {neither,A,B,both}, alternation offset, operation sequence over {Get,Put,FindMissing,GetCapabilities} up to length 2 (quick) / 3 (thorough)); each base is run fault-free and then once per (replica, call index the replica really receives, code in {UNAVAILABLE,INTERNAL,DEADLINE_EXCEEDED,INVALID_ARGUMENT}, early|late). " +
 			"seq/local: PRNG scenarios (1-4 objects, placement per object, replicator per direction, 1-8 operations incl. GetFromComposite, 0-2 failures incl. spurious NOT_FOUND, 6 ways of consuming a read); local uses assembled real local stores with objects parked in old blocks. conc: 2-6 concurrent clients. " +
-			"distinct = hash of (replica kinds, operation, replicators, pre-state of the objects involved, first-consulted replica, failures that fired, outcome) per OPERATION; non-trivial = the replicas differed on an involved object, or a failure fired, or a replica returned a buffer with a background task; for conc = hash of the totally ordered replica call log",
+			"distinct = hash of (replica kinds and key format, operation, replicators and how they were built, pre-state of the objects involved, first-consulted replica, failures that fired, outcome) per OPERATION; non-trivial = the replicas differed on an involved object, or a failure fired, or a replica returned a buffer with a background task; for conc = hash of the totally ordered replica call log",
 		Workers:     8,
 		CaseTimeout: 90 * time.Second,
 		Race:        true,
@@ -90,12 +97,26 @@ func main() {
 			"conc_quiescent_both_hold":              200,
 			"enum_bases":                            160,
 			"enum_failure_positions":                4000,
+			// acknowledged-upload-lost fault kind
+			"enum_lost_upload_positions":                             500,
+			"uploads_acknowledged_then_lost":                         500,
+			"reads_with_repair_upload_lost":                          30,
+			"reads_failed_after_repair_upload_lost_naming_a_backend": 12,
+			// configuration-built replicators, instance-aware replicas, the same
+			// contents under several instance names
+			"scenarios_configuration_built_replicators": 2500,
+			"scenarios_instance_aware_replicas":         2000,
+			"scenarios_hierarchical_local_replicas":     150,
+			"sibling_repairs_keyed_cfg":                 100,
+			"sibling_repairs_keyed_cfg_queued":          20,
 		},
 		Assumptions: []string{
 			"a replica 'holds' an object when its own lookup finds it (model store: map entry; local store: key-location map resolves); objects a local store displaces on its own are not the composite's doing (such cases are dropped and counted)",
 			"the repair clauses are not asserted in the direction served by the no-op replicator",
 			"which backend an error must name is asserted only where it is unambiguous: the first-consulted replica's own read, any call on the other replica during a read, a replica's own Put / FindMissing / GetCapabilities",
 			"an existence check is exact when nothing fails (an object neither replica holds must be reported missing), and has no NOT_FOUND outcome",
+			"a replica that acknowledged an upload and lost the object (fault kind acceptThenLose) has failed: a read during which that happens must not end in NOT_FOUND while the other replica holds the object, but may fail with any other code; from then on no repair INTO that replica is asserted (a strategy may remember that it copied the object there)",
+			"for replicas that distinguish instance names an object is (contents, instance name); 'holds' follows the replica's own lookup (a hierarchical local store shows an object under every name that has the upload's name as a prefix)",
 			"the buffer a replica's Put receives must support GetSizeBytes (the local store calls it first); the monitor calls it under recover so that candidate defect P1 is reported with its own signature instead of killing the worker",
 		},
 		Body: body,
